@@ -22,6 +22,7 @@ DEFAULT_FEED_KNOBS = dict(
     n_foreign=(0, 0),
     p_never_final=0.05,  # unit whose expected-vote stays below 100
     p_provider_err=0.2,
+    p_zero_version=0.03,  # an early version that carries an expected-vote percentage but no tabulated votes yet
     surge_frac=0.0,
     boundary_frac=0.0,
     poll_every=(30.0, 120.0),
@@ -68,6 +69,8 @@ def unit_versions(rng, truth_row, baseline_row, k, threshold=100, tf_limits=(0.5
             out[i][c] = max(out[i][c], out[i - 1][c])
         out[i]["turnout"] = max(out[i]["turnout"], out[i - 1]["turnout"], out[i]["dem"] + out[i]["gop"])
         out[i]["pev"] = max(out[i]["pev"], out[i - 1]["pev"])
+    if len(out) >= 2 and chance(rng, k.get("p_zero_version", 0.0)):
+        out[0].update(dem=0, gop=0, turnout=0, pev=int(min(out[1]["pev"], choice(rng, [1, 25, 50, 50, 50, 75]))))
     kind = "normal"
     # surge: a partial count that exceeds anything a model would predict
     if len(out) >= 2 and chance(rng, k["surge_frac"]):
